@@ -166,7 +166,8 @@ def check_C02(chk):
     n = 3 if q else 4
     run_suite(chk, 'read', 'MC_Sem', mc_cfg('paths', n, ['paths', 'getpath', 'pathvalue'], 6, ('WellFormed', 'Closed', 'PathsAgree')))
     run_suite(chk, 'update', 'MC_Sem', mc_cfg('paths', 3, ['upd-empty', 'upd-one', 'upd-err', 'assign', 'addassign', 'altassign', 'del'], 4))
-    run_suite(chk, 'update2', 'MC_Sem', mc_cfg('paths', 2 if q else 3, ['upd-two'], 3), heap='24g')
+    # updates with two outputs per path: node bound 2 in both tiers (at 3, `.. as $y | ..` under a two-output update has an expectation too large to print)
+    run_suite(chk, 'update2', 'MC_Sem', mc_cfg('paths', 2, ['upd-two'], 3 if q else 4), heap='24g')
     run_suite(chk, 'pathidx', 'MC_Sem', mc_cfg('pathidx', 2, ['paths', 'getpath', 'upd-one', 'upd-empty', 'assign'], 5))
     import gen
     cases = os.path.join(W, 'cases-C02-random.ndjson')
@@ -1346,7 +1347,8 @@ def check_C06(chk):
     open(op, 'w').close()
     start, hangs, logs = 0, [], []
     while start < len(cases):
-        rc, _, err = syscheck.strace([vlib.HARNESS, 'sys', 'run', cp, op, str(start)], lg, cwd=base, timeout=900 if q else 3600)
+        # a case that makes no progress for 20 s (an endless loop such as `until(null; null)`) is cut by the watchdog
+        rc, _, err = syscheck.strace([vlib.HARNESS, 'sys', 'run', cp, op, str(start)], lg, cwd=base, timeout=7200, progress_file=op, stall_s=20)
         logs.append(open(lg, errors='replace').read())
         done = sum(1 for _ in open(op))
         if done >= len(cases):
@@ -1482,9 +1484,16 @@ def check_C06(chk):
                         'the documented exceptions `repl` and `halt` are not run; --in-place is checked here only for leftover files (the call sequence is C18`s)']
 
 
-def run_sys_cases(cases, tag, hang_s=10, mem_gb=8):
+def run_sys_cases(cases, tag, hang_s=10, mem_gb=8, chunk=20000):
     """run cases through `harness sys run` (no tracing); a hang or a dying process is data: continue behind the case.
-    -> list of result records in case order"""
+    The cases go through the driver in chunks (the driver parses its whole case file at every start; with a small
+    file that takes no time, so that the watchdog only ever waits for the filter). -> list of result records in case order"""
+    if len(cases) > chunk:
+        out = []
+        hangs_all = {}
+        for k in range(0, len(cases), chunk):
+            out += run_sys_cases(cases[k:k + chunk], f'{tag}-{k // chunk}', hang_s, mem_gb, chunk)
+        return out
     import subprocess, resource, time as _t
     base = os.path.join(W, f'sys-{tag}')
     shutil.rmtree(base, ignore_errors=True)
@@ -1525,7 +1534,7 @@ def run_sys_cases(cases, tag, hang_s=10, mem_gb=8):
         with open(op, 'a') as f:
             f.write(json.dumps({'id': cases[done]['id'], 'items': 0, 'end': end, 'status': p.returncode, 'stderr': err[-300:]}) + '\n')
             start = done + 1
-            # a filter that hangs on three argument tuples (an unbounded loop / allocation for huge counts) is not run on the
+            # a filter that hangs on three argument tuples (per chunk) (an unbounded loop / allocation for huge counts) is not run on the
             # remaining tuples: they are recorded as not run
             grp = cases[done]['id'].split('#')[0]
             if end == 'hang':
@@ -1545,7 +1554,7 @@ def check_C05(chk):
                 'an abort that is not resource exhaustion or a kill by a signal has no action). natives: every native filter and definition of the current tree (discovered at run time) x the '
                 'boundary pool supplied by TLC (55 values: 0, +-1, +-2^31, 2^53+1, +-2^63 and neighbours, 2^64, 2^70, floats incl. NaN, +-Infinity, -0.0, huge decimal literals, empty / multi-byte / '
                 'invalid UTF-8 / NUL strings, byte strings, empty and nested containers, arrays of code points and broken-down times, slice objects): as input for arity 0, input x argument '
-                'for arity 1 (quick: 400 per filter; thorough: all 3025), sampled (thorough: exhaustive over a 16-value sub-pool) for arity 2-3; all regex filters x 14 patterns x 6 flags x 4 '
+                'for arity 1 (quick: 400 per filter; thorough: all 3025), sampled (thorough: exhaustive over a 10-value sub-pool) for arity 2-3; all regex filters x 14 patterns x 6 flags x 4 '
                 'inputs. filter texts: every sequence of <= 2 (thorough 3) of 64 tokens, compiled; rejected ones must render diagnostics. documents: every sequence of <= 2 (3) tokens per format '
                 '(YAML 37, XML 30, TOML 29, CSV 15, JSON 28 tokens) through the decoders. Built with overflow checks and debug assertions; panics are caught and reported per case.')
     vlib.build_harness()
@@ -1560,7 +1569,7 @@ def check_C05(chk):
     pool += [{'t': 'int', 'n': -9223372036854775808}, {'t': 'int', 'n': 9223372036854775807}, {'t': 'arr', 'a': [{'t': 'int', 'n': -9223372036854775808}]}]
     names = subprocess.run([vlib.HARNESS, 'sys', 'names'], stdout=subprocess.PIPE, text=True).stdout.split()
     skipn = {'halt/0', 'halt/1', 'halt_error/0', 'halt_error/1', 'repl/0', 'repl/1', 'until/2', 'input/0', 'inputs/0'}
-    sub = [pool[i] for i in (0, 3, 5, 12, 14, 15, 18, 21, 22, 28, 30, 31, 36, 40, 42, 49)]
+    sub = [pool[i] for i in (0, 3, 14, 18, 22, 28, 31, 40, 42, 49)]
     cases = []
     def add(na, inp, args, k):
         n, a = na.rsplit('/', 1)
@@ -1591,7 +1600,7 @@ def check_C05(chk):
             else:
                 import itertools
                 combos = list(itertools.product(sub, repeat=a + 1)) if a == 2 else []
-                combos += [tuple(rng.choice(pool) for _ in range(a + 1)) for _ in range(3000)]
+                combos += [tuple(rng.choice(pool) for _ in range(a + 1)) for _ in range(1500)]
                 for k, c in enumerate(combos):
                     add(na, c[0], list(c[1:]), k)
     S = lambda t: {'t': 'str', 'c': [ord(c) for c in t]}
